@@ -119,6 +119,45 @@ Proof.
 Qed.
 
 (* ---------------------------------------------------------------------- *)
+(*  The decoder never gets stuck                                           *)
+(* ---------------------------------------------------------------------- *)
+
+Lemma byte_seq_total w y : wt (TSeq (TInt w)) y = true -> exists r, bytes_of_seq y = Some r.
+Proof. destruct y; try discriminate. exact (int_seq_total w l). Qed.
+
+Lemma image_of_data_total v : wt ImageData_ty v = true -> exists i, image_of_data v = Some i.
+Proof.
+  unfold ImageData_ty. intro W. apply wt_tuple_inv in W. destruct W as (vs & -> & W).
+  cbn [image_of_data]. set (e := combine (map fst imagedata_fields) vs).
+  pose proof (env_typed_gen ifield_eqb imagedata_fields vs W) as T. fold e in T.
+  assert (AI : forall s f w, assoc isource_eqb s image_dec_targets = Some f ->
+               assoc ifield_eqb f imagedata_fields = Some (TInt w) -> exists n, arg_int e s = Some n).
+  { intros s f w A F. unfold arg_int, arg_val. rewrite A.
+    destruct (T _ _ F) as (x & -> & Wx). apply wt_int_inv in Wx. destruct Wx as [n ->]. eauto. }
+  unfold image_of_env.
+  edestruct (AI ISrcWidth) as [w0 ->]; [table|table|].
+  edestruct (AI ISrcHeight) as [h0 ->]; [table|table|].
+  edestruct (AI ISrcDepth) as [d0 ->]; [table|table|].
+  edestruct (AI ISrcDimension) as [n0 ->]; [table|table|].
+  unfold arg_val.
+  let r := eval vm_compute in (assoc isource_eqb ISrcFormat image_dec_targets) in
+    change (assoc isource_eqb ISrcFormat image_dec_targets) with r.
+  let r := eval vm_compute in (assoc isource_eqb ISrcData image_dec_targets) in
+    change (assoc isource_eqb ISrcData image_dec_targets) with r.
+  cbv iota beta.
+  edestruct T as (xf & -> & Wf); [table|]. apply wt_bytes_inv in Wf. destruct Wf as [fb ->].
+  edestruct T as (xd & -> & Wd); [table|].
+  destruct (byte_seq_total _ _ Wd) as [bs ->]. eauto.
+Qed.
+
+Theorem bin_to_image_never_stuck : forall bs, bin_to_image bs <> Stuck.
+Proof.
+  intro bs. unfold bin_to_image. destruct (decompress bs) as [e|raw]; [discriminate|].
+  destruct (dec ImageData_ty raw) as [[v r]|] eqn:D; [|discriminate].
+  destruct (image_of_data_total v (dec_wt _ _ _ _ D)) as [m ->]. discriminate.
+Qed.
+
+(* ---------------------------------------------------------------------- *)
 (*  Format names (table generated from the real serializer)                *)
 (* ---------------------------------------------------------------------- *)
 
